@@ -69,6 +69,11 @@ type HarnessRun struct {
 	Samples     []string
 	pending     int
 	Truncated   bool
+	Concrete    map[string]*big.Int
+	ModelSamples []map[string]*big.Int
+	SampleVars  [][]varInfo
+	ConcEvents  []string
+	ConcEnd     string
 	start       time.Time
 	Wall        time.Duration
 }
@@ -82,6 +87,8 @@ type HarnessCfg struct {
 	Expect     []string // vReach ids that must be reached
 	AllocAlpha int
 	AllocBeta  int
+	DiffSamples int
+	ConcMax    int
 }
 
 type Engine struct {
@@ -131,6 +138,7 @@ type Worker struct {
 	symCount map[string]int
 	nowCount int
 	events   []string
+	choices  []string
 	funcs    map[string]int
 	stubs    map[string]int
 	pcTerms  []*Term
@@ -278,6 +286,7 @@ func (w *Worker) runJob(j Job) {
 	w.symCount = map[string]int{}
 	w.nowCount = 0
 	w.events = nil
+	w.choices = nil
 	w.funcs = map[string]int{}
 	w.stubs = map[string]int{}
 	w.pcTerms = nil
@@ -330,9 +339,32 @@ func (w *Worker) runJob(j Job) {
 		w.initDone = true
 		w.call(h.Fn, nil, nil)
 	}()
+	var sampleModel map[string]*big.Int
+	var sampleVars []varInfo
+	if reason == "end" && h.Concrete == nil {
+		h.mu.Lock()
+		want := len(h.ModelSamples) < h.Cfg.DiffSamples
+		h.mu.Unlock()
+		if want {
+			if r, m := w.check(nil, true); r == Sat {
+				sampleModel = m
+				for _, t := range w.tc.vars {
+					sampleVars = append(sampleVars, varInfo{t.Name, t.W})
+				}
+			}
+		}
+	}
 	w.solver.PopTo(0)
 
 	h.mu.Lock()
+	if sampleModel != nil && len(h.ModelSamples) < h.Cfg.DiffSamples {
+		h.ModelSamples = append(h.ModelSamples, sampleModel)
+		h.SampleVars = append(h.SampleVars, sampleVars)
+	}
+	if h.Concrete != nil {
+		h.ConcEvents = append([]string{}, w.events...)
+		h.ConcEnd = reason
+	}
 	h.PathsEnded[reason]++
 	for k, v := range w.funcs {
 		h.Funcs[k] += v
@@ -366,6 +398,9 @@ func firstLine(s string) string {
 func (w *Worker) pathSample() string {
 	var sb strings.Builder
 	fmt.Fprintf(&sb, "path decisions=%d steps=%d", len(w.trace), w.steps)
+	if len(w.choices) > 0 {
+		sb.WriteString(" choices=[" + strings.Join(w.choices, ";") + "]")
+	}
 	if len(w.events) > 0 {
 		ev := w.events
 		if len(ev) > 12 {
@@ -659,8 +694,9 @@ func (w *Worker) concretize(t *Term, why string) uint64 {
 		v := bv.Uint64()
 		vals = append(vals, v)
 		conj = append(conj, w.tc.Not(w.tc.Eq(t, w.tc.Const(t.W, v))))
-		if len(vals) > 4096 {
-			w.report(&Violation{Kind: "unwind", ID: "concretize:" + why, Msg: "more than 4096 values for a concretised term"})
+		if len(vals) > w.concLimit() {
+			w.report(&Violation{Kind: "unwind", ID: "concretize:" + why + "@" + w.siteKey(w.top()), Msg: fmt.Sprintf("more than %d values for a concretised term", w.concLimit())})
+			vals = vals[:1]
 			break
 		}
 	}
@@ -678,6 +714,13 @@ func (w *Worker) concretize(t *Term, why string) uint64 {
 		w.learn(w.tc.Eq(t, w.tc.Const(t.W, vals[0])))
 	}
 	return vals[0]
+}
+
+func (w *Worker) concLimit() int {
+	if w.h.Cfg.ConcMax > 0 {
+		return w.h.Cfg.ConcMax
+	}
+	return 300
 }
 
 // assume constrains the path; ends it if infeasible.
